@@ -86,6 +86,25 @@ def build(inst):
             cs_ = ' \\/ '.join(box() for _ in range(rnd.randint(1, 3)))
             care = ctx.add_expr(cs_) | f if rnd.random() < 0.7 else ctx.add_expr(cs_)
         desc = f'f = {fs}; care = {cs_}'
+    elif kind == 'partial':
+        # f speaks about the first variable only; the care set also about the others and may leave *their* hints
+        seed = inst['arg']
+        rnd = random.Random(seed)
+        decl = DECLS[inst['decl']]
+        n0 = names[0]
+        lo0, hi0 = decl[n0]
+        a = rnd.randint(lo0, hi0)
+        b = rnd.randint(a, hi0)
+        fs = f'({n0} \\in {a}..{b})'
+        f = ctx.add_expr(fs)
+        cs = [f'({n0} \\in {lo0}..{hi0})']
+        for n, (rl, rh) in list(zip(names, ranges))[1:]:
+            c1 = rnd.randint(rl, rh)
+            c2 = rnd.randint(c1, rh)
+            cs.append(f'({n} \\in {c1}..{c2})')
+        cs_ = ' /\\ '.join(cs)
+        care = ctx.add_expr(cs_)
+        desc = f'f = {fs}; care = {cs_}'
     else:
         raise ValueError(kind)
     return ctx, names, ranges, pts, f, care, desc
@@ -208,6 +227,13 @@ def instances_for(tier, seed):
         dens = rnd.choice([0.55, 0.6, 0.65, 0.7])
         m = sum(1 << i for i in range(32) if rnd.random() < dens)
         insts.append(instance('mask', 'b5', (m or 1, None)))
+    # random subsets of 64-point integer grids (cyclic cores whose exhaustive branching has unequal branch costs)
+    n64 = 400 if tier == 'quick' else 8000
+    for _ in range(n64):
+        d = rnd.choice(['g333', 'g333', 'm'])
+        dens = rnd.choice([0.4, 0.5, 0.6])
+        m = sum(1 << i for i in range(64) if rnd.random() < dens)
+        insts.append(instance('mask', d, (m or 1, None)))
     nb = 40 if tier == 'quick' else 600
     for d in ('g44', 'g333', 's', 'n', 'm', 'g88'):
         insts += [instance('boxes', d, seed * 1000 + i) for i in range(nb)]
